@@ -61,17 +61,21 @@ def _unfold(pre, k):
                                             t.eq(lzok(pre, k), t.and_(lzok(pre, t.sub(k, t.ONE)), t.app('lzstep_ok', t.BOOL, *a)))))
 
 
-def scope_independence(pre):
-    """hypothesis of C16 (no cross references), for the element construct on this buffer: the outcome of parsing it and of asking
-    its actual size does not depend on the scope"""
-    o = S_(pre)
+def scope_independence_of(m):
+    """hypothesis of C16 (no cross references), for the element construct m: the outcome of parsing it and of asking its actual
+    size does not depend on the scope (whatever the data)"""
+    buf, ln, base = t.var('lzb!', t.ARR), t.var('lzl!', t.INT), t.var('lzs!', t.INT)
     p, H, D, c = t.var('lzp!', t.INT), t.var('lzH!', 'Heap'), t.var('lzD!', 'Dom'), t.var('lzc!', t.INT)
     out = []
     for fn, sort in (('P_ok', t.BOOL), ('P_val', t.VAL), ('P_end', t.INT), ('P_exc', t.INT), ('A_ok', t.BOOL), ('A_val', t.INT), ('A_exc', t.INT)):
-        a = t.app(fn, sort, _m(pre), o.buf, o.len, p, _base(o), H, D, c)
-        b = t.app(fn, sort, _m(pre), o.buf, o.len, p, _base(o), *REF)
-        out.append(t.forall([p, H, D, c], t.eq(a, b), pats=[[a]]))
+        a = t.app(fn, sort, m, buf, ln, p, base, H, D, c)
+        b = t.app(fn, sort, m, buf, ln, p, base, *REF)
+        out.append(t.forall([buf, ln, p, base, H, D, c], t.eq(a, b), pats=[[a]]))
     return t.and_(*out)
+
+
+def scope_independence(pre):
+    return scope_independence_of(_m(pre))
 
 
 def _vint(i):
@@ -90,7 +94,8 @@ def offsets_clause(pre, has, get, k):
     o = S_(pre)
     j = t.var('lzj!', t.INT)
     inr = t.and_(t.le(t.ZERO, j), t.le(j, k))
-    return t.and_(t.forall([j], t.implies(inr, t.and_(t.T(t.BOOL, 'select', (has, _vint(j))), t.eq(t.T(t.VAL, 'select', (get, _vint(j))), _vint(t.add(lzpos(pre, j), _base(o)))))),
+    return t.and_(t.forall([j], t.implies(inr, t.and_(t.T(t.BOOL, 'select', (has, _vint(j))), t.eq(t.T(t.VAL, 'select', (get, _vint(j))), _vint(t.add(lzpos(pre, j), _base(o)))),
+                                                      t.ge(lzpos(pre, j), t.ZERO))),
                            pats=[[t.T(t.BOOL, 'select', (has, _vint(j)))], [t.T(t.VAL, 'select', (get, _vint(j)))]]),
                   t.forall([j], t.implies(t.T(t.BOOL, 'select', (has, _vint(j))), inr), pats=[[t.T(t.BOOL, 'select', (has, _vint(j)))]]))
 
@@ -149,13 +154,36 @@ def _ok(pre, post):
 def _bad(pre, post):
     n = _param_int(pre, 'count')
     range_err = t.eq(post.exc.cls, I(post.eng.src.exc_code['RangeError']))
-    return [('negative-count-is-RangeError', t.implies(t.lt(n, t.ZERO), range_err), T)] + list(generic_raise(pre, post))
+    out = [('negative-count-is-RangeError', t.implies(t.lt(n, t.ZERO), range_err), T)] + list(generic_raise(pre, post))
+    if pre.obj('stream').model == 'adv':
+        return out
+    kk = post.st.ghost.get('loop_k')
+    ghost_mode = getattr(post.eng.models, 'ghost_mode', False)
+    if kk is None or ghost_mode:
+        if not ghost_mode and post.st.ghost.get('LE'):
+            return out
+        kk = fresh('failed_element', t.INT)
+    out.append(('a-failure-is-an-element-that-could-neither-be-skipped-nor-parsed', t.implies(t.ge(n, t.ZERO), t.and_(t.le(t.ZERO, kk), t.lt(kk, n), t.not_(lzok(pre, t.add(kk, t.ONE))))), T,
+                [('def', _unfold(pre, t.add(kk, t.ONE)))]))
+    return out
+
+
+def rk_lazylist(eng, st, pre):
+    """at a call site: a LazyListContainer over the same stream, element construct and scope, whose count, offsets and cache the
+    clauses describe"""
+    offs = st.alloc(ODict(has=fresh('res_offsets_has', 'VMapHas'), get=fresh('res_offsets_get', 'VMapGet')), 'dict')
+    vals = st.alloc(ODict(has=fresh('res_values_has', 'VMapHas'), get=fresh('res_values_get', 'VMapGet')), 'dict')
+    cnt = fresh('res_count', t.INT)
+    st.assume(t.ge(cnt, t.ZERO))
+    fields = {'_subcon': pre.self.fields['subcon'], '_stream': pre.args['stream'], '_count': VInt(cnt), '_offsets': offs, '_values': vals,
+              '_context': pre.args['context'], '_path': pre.args['path']}
+    return st.alloc(OObject('LazyListContainer', fields), 'object')
 
 
 def register_lazyarray(src):
     define_lazy_folds(src)
     fcontract('LazyArray', '_parse', [
-        Case('ok', 'return', lambda pre: t.TRUE, ensures=_ok, rkind=rk_dyn, modifies=['stream']),
+        Case('ok', 'return', lambda pre: t.TRUE, ensures=_ok, rkind=rk_lazylist, modifies=['stream']),
         Case('fails', 'raise', lambda pre: t.TRUE, ensures=_bad, modifies=['stream']),
     ], loops={'for i in range(count)': LoopSpec(_inv, tags=T, modifies=())}, tags=T,
         requires=lambda pre: [('hypothesis: parsing an element and asking its size do not depend on the scope', scope_independence(pre))])
